@@ -337,7 +337,7 @@ NSHARD = 16
 
 
 def plan(tier):
-    n = 120 if tier == 'quick' else 3000
+    n = 500 if tier == 'quick' else 3000
     return [{'kind': 'hyp', 'shard': i, 'examples': n} for i in range(NSHARD)]
 
 
